@@ -370,8 +370,7 @@ ChainFrom(steps, outs, k, rg, bufSoFar) ==
        IN IF r.t = "doc"
           THEN IF /\ Has(o, "t") /\ o.t = "bytes"
                   /\ Tup(o.v) = Tup(Encode(r.v))
-                  /\ o.buflen = Len(bufSoFar) + Len(o.v)
-                  /\ IsCanonical(o.v)
+                  /\ o.buflen = Len(bufSoFar) + Len(o.v)       \* (canonical because equal to Encode of a document: System!CanonInv)
                THEN ChainFrom(steps, outs, k + 1, [rg EXCEPT ![s.dst] = r.v], bufSoFar \o o.v)
                ELSE <<-1>>
           ELSE IF r.t = "text"
